@@ -480,7 +480,7 @@ func (vc *VC) instr(ins ssa.Instruction) {
 			a = vc.pointeeAddr(p.S, x.Addr.Type())
 			a.space = vc.spaceOf(x.Addr)
 		}
-		vc.writeRoot = allocRoot(x.Addr)
+		vc.writeRoot = vc.allocRootOf(x.Addr)
 		vc.storeAddr(a, val.S)
 		vc.writeRoot = nil
 	case *ssa.Field:
@@ -561,7 +561,7 @@ func (vc *VC) instr(ins ssa.Instruction) {
 		vc.safe("nil-map-store", fmt.Sprintf("(not (= %s 0))", m.S), x.Pos())
 		dk, ds, vk, vs := vc.mapComps(mt)
 		k, v := vc.val(x.Key), vc.val(x.Value)
-		vc.writeRoot = allocRoot(x.Map)
+		vc.writeRoot = vc.allocRootOf(x.Map)
 		d := vc.getComp(dk, ds)
 		vc.setComp(dk, ds, fmt.Sprintf("(store %s %s (store (select %s %s) %s true))", d, m.S, d, m.S, k.S))
 		vv := vc.getComp(vk, vs)
